@@ -353,9 +353,22 @@ func (w *walker) walk(v reflect.Value, set func(reflect.Value), hc, hl string, p
 					w.muts = append(w.muts, mutRec{A: w.actor, Op: "SetElem", C: id, L: "1"}, mutRec{A: w.actor, Op: "SetElem", C: id, L: "2"})
 				}
 			}
-			if w.mut == "AppendWithinCap" && n < v.Cap() {
-				nv := reflect.Append(v, reflect.Zero(et)) // stays within capacity: writes the (possibly shared) backing array
-				markValue(nv.Index(n), w.actor)
+			if w.mut == "AppendWithinCap" && n < v.Cap() && !(et.Kind() == reflect.Ptr && n == 0) {
+				elem := reflect.Zero(et)
+				if et.Kind() == reflect.Ptr && n > 0 && !v.Index(0).IsNil() {
+					// a nil element is not an IR value ([]*Schema): append a marked clone of the first element
+					p := reflect.New(et.Elem())
+					p.Elem().Set(v.Index(0).Elem())
+					elem = p
+				}
+				nv := reflect.Append(v, elem) // stays within capacity: writes the (possibly shared) backing array
+				if et.Kind() == reflect.Ptr {
+					if !nv.Index(n).IsNil() {
+						markValue(nv.Index(n).Elem(), w.actor)
+					}
+				} else {
+					markValue(nv.Index(n), w.actor)
+				}
 				if store(v, set, nv) {
 					w.muts = append(w.muts, mutRec{A: w.actor, Op: "AppendWithinCap", C: id, L: strconv.Itoa(n + 1), HC: hc, HL: hl})
 				}
